@@ -383,8 +383,7 @@ class SimpleComparison(Comparison):
             with ExitStack() as exitStack:
                 if not self.right.small_constant:
                     self.src, r_long = exitStack.enter_context(
-                        self.right.calculate(
-                            None, self.left.signed and l_long or None))
+                        self.right.calculate(None, l_long or None))
                 else:
                     r_long = False
                 self.opcode = self.opcode[negative]
